@@ -41,6 +41,8 @@ def cfg(maxind, maxlines, source):
   MaxLines = {maxlines}
   Emit = TRUE
   Source = "{source}"
+  NameChars <- GenNameChars
+  CharOrd <- GenCharOrd
 INIT Init
 NEXT Next
 INVARIANT Refines
